@@ -13,9 +13,10 @@ EXPLANATION = (
     "window and of the publish window, each registry in its own loop, iterating the dict in insertion order (no sort / "
     "reverse); the clean branch of the accepted CONNACK purges with MQTTSessionCleared every publish registry that a "
     "non-clean loss keeps (queue, publish window, release window); no re-send happens on the clean branch and no failure "
-    "on the resume branch; publish() is honoured while CONNECTING in publisher-capable profiles. NOT decided: that requests "
-    "made on the new connection before its CONNACK are exempt from resume/purge (the code has no notion of 'carried over'), "
-    "and the release of held-back messages as the window allows.")
+    "on the resume branch; publish() is honoured while CONNECTING in publisher-capable profiles; Y-EXEMPT - for every registry "
+    "that can be entered before the CONNACK, the resume and purge loops touch an entry only under the test that marks it "
+    "as carried over (alarm cleared by the loss path), so what was requested on the new connection before its CONNACK is "
+    "neither failed nor re-sent. NOT decided: the release of held-back messages as the window allows.")
 ASSUMPTIONS = []
 
 PUB_REGS = ["queuePublishTx", "windowPublish", "windowPubRelease"]
@@ -78,7 +79,7 @@ def check(ctx):
             for reg in PUB_REGS:
                 if not lc.loss_keeps(reg):
                     continue
-                ok, fires = drains(tr.path.events, reg)
+                ok, fires = drains(tr.path.events, reg, True)
                 lps = loops_over(tr.path.events, reg)
                 w = where(lps[0]) if lps else (where(tr.events[0]) if tr.events else cls.module.path)
                 ctx.ob("Y-PURGE", "%s clean CONNACK fails every carried-over entry of %s" % (cq, reg), ok, where=w,
@@ -94,6 +95,39 @@ def check(ctx):
             ctx.ob("Y-PURGE", "%s nothing carried over is re-sent on a clean session" % cq, not resent, where=where(resent[0]) if resent else cls.module.path,
                    function=resent[0].func if resent else "", construct="connack-clean/resend", nontrivial=False,
                    msg="a carried-over request is written on the clean branch")
+        # Y-EXEMPT: what was requested on this very connection before its CONNACK is neither failed nor re-sent
+        for tr in lc.connack_ok:
+            for reg in PUB_REGS + ["windowSubscribe", "windowUnsubscribe"]:
+                if not lc.reg_in(reg, "CONNECTING"):
+                    continue       # nothing can enter this registry before the CONNACK
+                for lp in loops_over(tr.path.events, reg):
+                    for bp in lp.a["body"]:
+                        evs = list(bp.walk())
+                        touched = [e for e in evs if (e.kind == "WRITE" and any(isinstance(x, tuple) and x[:2] == ("elem", reg) for x in subterms(e.a["data"])))
+                                   or (e.kind == "FIRE" and isinstance(e.a["dfr"], tuple) and e.a["dfr"][0] == "attr" and isinstance(e.a["dfr"][1], tuple)
+                                       and e.a["dfr"][1][:2] == ("elem", reg))
+                                   or (e.kind == "UNREG" and e.a["reg"] == reg)]
+                        if not touched:
+                            continue
+                        carried = False
+                        for c in bp.conds[len(lp.conds):]:
+                            t, pol = c.term, c.pol
+                            while isinstance(t, tuple) and t and t[0] == "not":
+                                t, pol = t[1], not pol
+                            if isinstance(t, tuple) and t[0] == "nonnull" and isinstance(t[1], tuple) and t[1][0] == "attr" and t[1][2] == "alarm" \
+                                    and isinstance(t[1][1], tuple) and t[1][1][:2] == ("elem", reg) and pol is False:
+                                carried = True
+                            if isinstance(t, tuple) and t[0] == "attr" and t[2] == "alarm" and isinstance(t[1], tuple) and t[1][:2] == ("elem", reg) and pol is False:
+                                carried = True
+                        ctx.ob("Y-EXEMPT", "%s CONNACK %s only touches carried-over entries of %s" % (cq, "purge" if tr in lc.ack_clean else "resume", reg),
+                               carried, where=where(touched[0]), function=touched[0].func,
+                               construct="connack-%s/not-exempt/%s" % ("clean" if tr in lc.ack_clean else "persistent", reg),
+                               msg="requests can enter %s on this connection before its CONNACK (publish() is honoured while CONNECTING), but the %s "
+                                   "loop at CONNACK treats every entry alike: a request made before the CONNACK is %s although it does not belong to "
+                                   "the earlier session (carried-over entries are recognisable: the loss path cleared their alarm)" % (
+                                       reg, "purge" if tr in lc.ack_clean else "resume",
+                                       "failed with MQTTSessionCleared" if tr in lc.ack_clean else "written a second time with DUP=1"),
+                               trigger=tr.label())
         # resume / purge code only reachable from an accepted CONNACK (and the purge also from the loss path)
         for tr in contexts(cat):
             if tr in lc.connack_ok or tr.kind == "LOSS":
